@@ -4,7 +4,10 @@
 pub mod backend;
 pub mod ck_crash;
 pub mod ck_engine;
+pub mod ck_sets;
 pub mod ck_storage;
+pub mod conc;
+pub mod sched;
 pub mod driver;
 pub mod hist;
 pub mod known;
